@@ -29,7 +29,8 @@ class ModelFieldsPercentMatch(ModelCmp):
         self.percent_fields = percent_fields
 
     def cmp(self, fields_a: set, fields_b: set) -> bool:
-        return len(fields_a & fields_b) / len(fields_a | fields_b) >= self.percent_fields
+        # cross-multiplied: two models without fields (empty objects) must not divide by zero
+        return len(fields_a & fields_b) >= self.percent_fields * len(fields_a | fields_b)
 
 
 class ModelFieldsNumberMatch(ModelCmp):
